@@ -5,20 +5,12 @@ import sys
 
 VERIF = os.path.dirname(os.path.dirname(os.path.abspath(__file__)))
 
-NOTE_K = ("Trusted: rustc + Kani 0.68 MIR->goto translation and its std models, CBMC 6.11 + CaDiCaL, the short reference "
-          "model inside each harness, and (k8 profile) the word-narrowing script. Bounded: limb counts, word width and "
-          "input masks are those printed per harness in the evidence; nothing outside them is claimed.")
 
-# property -> (claimed?, category, text, technique, design_ref, not_applicable_reason)
-CHECKS = {}
+from .manifest_table import CHECKS, NOT_APPLICABLE
 
-def claim(pid, text, technique, ref, note=NOTE_K, category="model_checking"):
-    CHECKS[pid] = dict(text=text, technique=technique, ref=ref, note=note, category=category)
-
-NOT_APPLICABLE = {}
 
 def load_tables():
-    from . import manifest_table  # noqa: F401  (fills CHECKS / NOT_APPLICABLE)
+    pass
 
 
 def build():
